@@ -534,7 +534,7 @@ class Engine:
                 pseudo.lines = ["translated-source-obligation", "-"]
                 pseudo.meta = dict(obligation=what)
                 self.mblocks[pseudo.id] = ["obligation: " + what]
-                self.iblocks[pseudo.id] = ["source: /repo/src/muxer/mp4.rs (days_to_ymd, format_unix_timestamp, adts_to_raw) and /repo/src/codec/opus.rs"]
+                self.iblocks[pseudo.id] = ["source: /repo/src/muxer/mp4.rs (days_to_ymd, format_unix_timestamp, adts_to_raw, encode_language_code), /repo/src/codec/{opus,h264,h265}.rs, /repo/src/fragmented.rs (ticks_to_ms)"]
                 broken.append(pseudo)
         # direct stage
         keys = P.get("checks", [])
@@ -1393,8 +1393,26 @@ def hexfile_variants(rng, good):
     return b"  \n\t ", "blank"
 
 
-def fam_cli(rng, n, prefix):
+def cli_probes(rng, prefix):
+    """deterministic probes: a fully valid real run with exactly one numeric option at a boundary or invalid"""
     out = []
+    base = dict(codec="h264", acodec=None, audio=None, vcodec_given=True, valias="h264", aalias=None, w=640, h=480, fps="30",
+                rate=48000, ch=2, frag=False, dry=False, title=None, lang=None, json=False, verbose=False, badout=False)
+    variants = [("fps", v) for v in ("NaN", "nan", "inf", "-inf", "0", "-0", "121", "120.0000001", "120", "1e-9", "-1", "1e400")] + \
+               [("w", v) for v in (319, 320, 4096, 4097)] + [("h", v) for v in (239, 240, 2160, 2161)]
+    for k, (key, v) in enumerate(variants):
+        d = dict(base, id="%sprobe%d" % (prefix, k))
+        d[key] = v
+        d["video"] = ("valid", h264_key(rng, extra=False).hex().encode())
+        c = Case(d["id"], "cli")
+        c.meta = d
+        c.lines = [json.dumps({k2: (v2 if not isinstance(v2, tuple) else [v2[0], (v2[1].hex() if v2[1] is not None else None)]) for k2, v2 in d.items()})]
+        out.append(c)
+    return out
+
+
+def fam_cli(rng, n, prefix):
+    out = cli_probes(rng, prefix)
     for i in range(n):
         codec = rng.choice(VCODECS)
         d = dict(id="%s%d" % (prefix, i), codec=codec)
@@ -2017,5 +2035,5 @@ for _p in ("C05", "C04"):
     PROPS[_p]["fams"] = PROPS[_p]["fams"] + [("fam_encode_paths", 100, 3000)]
 PROPS["C18"]["translated"] = True
 PROPS["C12"]["translated"] = True
-for _p in ("C14", "C01", "C04", "C07"):
+for _p in ("C14", "C01", "C04", "C07", "C10"):
     PROPS[_p]["translated"] = True
